@@ -37,7 +37,8 @@ REQUIRED_REACH = ['CConversionBoundaryCondition.recuperateBoundaryCondition',
 FAMILIES = ['planes', 'sphere', 'cylinder', 'mixed', 'dup-lower-unflagged',
             'dup-higher-unflagged', 'dup-both-flagged', 'with-tr', 'unused',
             'only-imp0', 'macrobody', 'none', 'in-union', 'via-complement',
-            'in-union-branch', 'one-sheet-cone']
+            'in-union-branch', 'one-sheet-cone', 'one-sheet-cone-twin',
+            'unused-flagged-twin']
 _PER = {'quick': 12, 'thorough': 3500}
 KIND = {'*': 'REFLECTION', '+': 'COSINUS'}
 
@@ -172,6 +173,54 @@ def build(case):
                                     imp={'n': '1'}))
         if rng.random() < 0.4:
             flag(rng.choice(planes))
+    if fam == 'one-sheet-cone-twin':
+        # the two sheets of one double cone as two cards, one of them
+        # flagged: the other sheet must not inherit the condition
+        ax = rng.choice('xyz')
+        apex = rnd(rng, -0.3, 0.3)
+        t2 = rnd(rng, 0.1, 0.4)
+        first = rng.choice([1, -1])
+        cone_a = M.Surf(12, 'k' + ax, [apex, t2, first])
+        cone_b = M.Surf(13, 'k' + ax, [apex, t2, -first])
+        if rng.random() < 0.3:
+            cone_b = M.Surf(13, 'k' + ax, [apex, t2])      # both sheets
+        flag(cone_a if rng.random() < 0.5 else cone_b)
+        deck.surfs += [cone_a, cone_b]
+        cells[0].geom = M.AND(M.S(-7), M.S(-12))
+        deck.cells.insert(1, M.Cell(5, mat=1, rho='-1.7',
+                                    geom=M.AND(M.S(-7), M.S(12), M.S(-13)),
+                                    imp={'n': '1'}))
+        deck.cells.insert(2, M.Cell(6, mat=2, rho='-2.7',
+                                    geom=M.AND(M.S(-7), M.S(12), M.S(13)),
+                                    imp={'n': '1'}))
+    if fam == 'unused-flagged-twin':
+        # a flagged card identical to an unflagged one that bounds the
+        # cells; the flagged card itself is not used (or only by the
+        # zero-importance outside)
+        tgt = rng.choice(planes + [inner, cyl])
+        twin = M.Surf(tgt.id + 20 if rng.random() < 0.5 else 0, tgt.kind,
+                      list(tgt.params))
+        if twin.id == 0:
+            # a number below every used one: it would be the survivor
+            for sur in deck.surfs:
+                sur.id += 1
+            def bump(expr):
+                if expr[0] == 's':
+                    return ('s', expr[1] + 1, expr[2], expr[3])
+                if expr[0] == '^':
+                    return expr
+                if expr[0] in ('#', 'g'):
+                    return (expr[0], bump(expr[1]))
+                return (expr[0],) + tuple(bump(sub) for sub in expr[1:])
+            for cel in cells:
+                cel.geom = bump(cel.geom)
+            twin.id = 1
+        flag(twin)
+        deck.surfs.append(twin)
+        if rng.random() < 0.4:
+            out_cell = cells[3]
+            out_cell.geom = M.OR(out_cell.geom, M.AND(M.S(twin.id),
+                                                      M.S(-twin.id)))
     if fam in ('in-union', 'via-complement', 'in-union-branch'):
         # flagged surfaces that reach the cells they bound only through
         # FICTIVE helper volumes (operands of UNION / INTE)
@@ -343,6 +392,78 @@ def run(case, ctx):
         elif len(entries) > len(grp):
             out.violation('bc-duplicate', f'{names} have entries '
                           f'{sorted(entries)}')
+    leak_check(case, out, deck, reference, t4, flagged)
     out.sample = {'flagged': [' '.join(s.atoms()) for s in flagged],
                   'options': deck.cli, 'entries': t4.bc}
     return out
+
+
+def leak_check(case, out, deck, reference, t4, flagged):
+    '''Wherever a surface that carries a boundary condition actually bounds a
+    written non-virtual volume, a flagged MCNP surface of that kind must pass
+    there (its sense must flip across the boundary): the condition must not
+    reach boundaries that belong to unflagged cards only.'''
+    nprng = np.random.default_rng(case.rng.getrandbits(60))
+    evalr = t4eval.Evaluator(t4)
+    live = [vid for vid, vol in t4.volus.items() if not vol.fictive]
+    for kind, tok in t4.bc:
+        if not tok.lstrip('-').isdigit() or int(tok) not in t4.surfs:
+            continue
+        t4surf = t4.surfs[int(tok)]
+
+        def fun(pts, _s=t4surf):
+            return t4eval.surf_value(_s, pts, t4.transforms)
+        lo = np.vstack([nprng.uniform(-7, 7, (800, 3)),
+                        nprng.uniform(-2.5, 2.5, (1600, 3))])
+        hi = lo + nprng.normal(0, 1.5, lo.shape)
+        flo, fhi = fun(lo), fun(hi)
+        sel = np.sign(flo) * np.sign(fhi) < 0
+        lo, hi, flo = lo[sel], hi[sel], flo[sel]
+        if not len(lo):
+            continue
+        for _ in range(40):
+            mid = 0.5 * (lo + hi)
+            fmid = fun(mid)
+            same = np.sign(fmid) == np.sign(flo)
+            lo[same] = mid[same]
+            hi[~same] = mid[~same]
+        root = 0.5 * (lo + hi)
+        step = 1e-4
+        grad = np.stack([(fun(root + step * np.eye(3)[k])
+                          - fun(root - step * np.eye(3)[k])) / (2 * step)
+                         for k in range(3)], axis=1)
+        norm = np.linalg.norm(grad, axis=1, keepdims=True)
+        ok = norm[:, 0] > 1e-9
+        root, grad, norm = root[ok], grad[ok], norm[ok]
+        if not len(root):
+            continue
+        nrm = grad / norm
+        plus, minus = root + 3e-3 * nrm, root - 3e-3 * nrm
+        # the surface bounds a volume at a point if the membership of the
+        # point depends on the sign of THIS surface (another SURF may pass
+        # through the same points)
+        bplus, bminus = evalr.batch(plus), evalr.batch(plus)
+        bplus._surf[t4surf.id] = np.ones(len(root))
+        bminus._surf[t4surf.id] = -np.ones(len(root))
+        active = np.zeros(len(root), dtype=bool)
+        for vid in live:
+            active |= bplus.inside(vid) != bminus.inside(vid)
+        if not active.any():
+            continue
+        covered = np.zeros(len(root), dtype=bool)
+        for sur in flagged:
+            if KIND[sur.flag] != kind or (sur.is_macro and
+                                          sur.kind not in ('sph', 'ell')):
+                continue
+            leaf = ('s', sur.id, 1, None)
+            covered |= np.sign(reference.leaf_sense(leaf, plus)) != \
+                np.sign(reference.leaf_sense(leaf, minus))
+        out.counters['bc_boundary_points'] += int(active.sum())
+        out.judged += int(active.sum())
+        bad = active & ~covered
+        if bad.sum() >= 3:
+            out.violation('bc-leak', f'entry {kind} {tok} ({t4surf.raw}): '
+                          f'{int(bad.sum())} of {int(active.sum())} sampled '
+                          'points where this surface bounds a written volume '
+                          'lie on no flagged surface of that kind, e.g. '
+                          f'{[round(float(v), 4) for v in root[bad][0]]}')
